@@ -2,6 +2,8 @@
    "-" = empty bytes, "~" = None / empty list.  Addresses are <iphex>@<port>.
    C f3 f4 f10 f16 method(B|T) maxc family ev...
        ev = D,now,src,dst|~,payloadhex | U,now,src,dst|~,payloadhex | T,now,family,dst | F,ch,payloadhex,ok|<errno>
+            | K,ch   (the TCP flow on identifier ch is over: noread + nowrite of its MuxWrapper)
+       the channel table is printed in identifier order (mux.channels is never iterated by the code)
        -> per step  "OK outs | state"  |  "FATAL"  |  "CRASH X"   joined by " ;; "
    S f3 f4 f10 f16 f80 to_ns|~ sysns(hex,hex..|~) ev...
        ev = now/frames/ready/io ; frames = ch:cmd:hex:tag,... (cmd Q O D C X) ; ready = sock,... ; io = k|e<errno>|d<hex>|f<hex>@<iphex>@<port>|n<k>
@@ -29,6 +31,7 @@ let cev_of_s s = match String.split_on_char ',' s with
   | ["U"; now; src; dst; p] -> EUdp (n_of_s now, addr_of_s src, oaddr_of_s dst, bytes_of_hex p)
   | ["T"; now; fam; dst] -> ETcp (n_of_s now, n_of_s fam, addr_of_s dst)
   | ["F"; ch; p; sr] -> EFrame (n_of_s ch, bytes_of_hex p, (if sr = "ok" then SendOk else SendErr (n_of_s sr)))
+  | ["K"; ch] -> ETcpEnd (n_of_s ch)
   | _ -> failwith ("bad client event " ^ s)
 let cout_str = function
   | OFrame (ch, cmd, d) -> Printf.sprintf "F:%d:%d:%s" (int_of_n ch) (int_of_n cmd) (hex_of_bytes d)
@@ -39,7 +42,8 @@ let ckind_str = function
   | KTcp -> "T"
 let cstate_str c =
   Printf.sprintf "chan=%s chani=%d dns=%s udp=%s"
-    (nonempty (join (List.map (fun (ch, k) -> soi (int_of_n ch) ^ ":" ^ ckind_str k) c.c_chan)))
+    (nonempty (join (List.map (fun (ch, k) -> soi ch ^ ":" ^ ckind_str k)
+                       (List.sort (fun (a, _) (b, _) -> compare a b) (List.map (fun (ch, k) -> (int_of_n ch, k)) c.c_chan)))))
     (int_of_n c.c_chani)
     (nonempty (join (List.map (fun (ch, dl) -> soi (int_of_n ch) ^ ":" ^ soi (int_of_n dl)) c.c_dns)))
     (nonempty (join (List.map (fun (a, (ch, dl)) -> s_of_addr a ^ ":" ^ soi (int_of_n ch) ^ ":" ^ soi (int_of_n dl)) c.c_udp)))
